@@ -225,6 +225,36 @@ func load(repo, harnessDir string) (*loaded, error) {
 	return l, nil
 }
 
+// collectEmbeds fills l.embeds from the //go:embed directives of the repository packages.
+func collectEmbeds(l *loaded, pkgs []*packages.Package) {
+	packages.Visit(pkgs, nil, func(p *packages.Package) {
+		if !strings.HasPrefix(p.PkgPath, repoModule) {
+			return
+		}
+		for _, f := range p.Syntax {
+			fname := p.Fset.Position(f.Pos()).Filename
+			for _, d := range f.Decls {
+				gd, ok := d.(*ast.GenDecl)
+				if !ok || gd.Doc == nil {
+					continue
+				}
+				for _, c := range gd.Doc.List {
+					if strings.HasPrefix(c.Text, "//go:embed ") {
+						target := strings.TrimSpace(strings.TrimPrefix(c.Text, "//go:embed "))
+						for _, sp := range gd.Specs {
+							if vs, ok := sp.(*ast.ValueSpec); ok && len(vs.Names) == 1 {
+								if data, err := os.ReadFile(filepath.Join(filepath.Dir(fname), target)); err == nil {
+									l.embeds[p.PkgPath+"."+vs.Names[0].Name] = string(data)
+								}
+							}
+						}
+					}
+				}
+			}
+		}
+	})
+}
+
 func (l *loaded) config(kind string, timeoutMs int) *interp.Config {
 	cfg := &interp.Config{
 		Prog: l.prog, RepoPkgs: l.repoPkgs, StdInitPkgs: l.stdPkgs, Redirects: map[string]*ssa.Function{},
